@@ -24,6 +24,7 @@ ASSUMPTIONS = ["templates: P2PKH 76 a9 14 h 88 ac; P2SH a9 14 h 87; witness OP_n
                "over that payload) or refused", "references: base58_ref, bech32_ref, ecref"]
 OBLIGATIONS = {
     "concurrent_calls": "interleavings of two concurrent calls (single-case checks in two threads, cold and after warm-up calls)",
+    "long_history": "operations executed in one long history (>= 1000 distinct operations, forward / forward / reverse)",
     "history_sequences": "operation sequences (non-initial process states) explored",
     "witness_v1plus_len_other": "a valid v1+ address with a program length other than 20/32", "unknown_b58_version": "a checksum-valid "
     "Base58Check string with an unknown version byte", "corrupted_still_valid": "a corrupted address that is itself another valid address",
@@ -170,6 +171,8 @@ def jobs(tier, seed):
         js.append({"name": f"small/p{t[0]}/points", "part": "small", "curve": list(t), "weight": 3})
     from vf.runner import seq_jobs
     js += seq_jobs(3, weight=4)
+    from vf.runner import long_jobs
+    js += long_jobs()
     from vf.runner import concur_jobs
     js += concur_jobs(len(CONCUR_SCEN) - (1 if tier == "quick" else 0))
     return js
@@ -181,6 +184,9 @@ def run_job(job):
         ops = seq_ops(dict(job, shard=[0, 1]))
         scens = [{"threads": [ops[i] for i in sc[0]], "warm": [ops[i] for i in sc[1]], "post": [ops[i] for i in (sc[2] if len(sc) > 2 else ())]} for sc in CONCUR_SCEN]
         return run_concur_job(job, scens, run_case, PROPERTY, CONCUR_FILES)
+    if job["part"] == "longhist":
+        from vf.runner import run_long_job, default_long_ops
+        return run_long_job(job, default_long_ops(seq_ops, job), run_case)
     if job["part"] == "seq":
         from vf.runner import run_seq_job
         return run_seq_job(job, seq_ops(job), run_case, depth=3 if job["tier"] == "quick" else 4)
